@@ -836,6 +836,8 @@ def targeted_programs():
                         {"id": "f", "op": "func", "name": "fdom2", "domain": "verif.other", "params": ["p"], "args": ["a"],
                          "body": {"nodes": [st("q", "rmean", 17, ["p"], axis=0)], "out": "q"}},
                         st("g", "identity", 21, ["f"])], "outs": ["g", "f"]})
+    P.append({"nodes": [{"id": "a", "op": "inline", "model": {"kind": "ml_only", "mlv": 2}, "args": ["x"]},
+                        st("b", "rmean", 17, ["a"], axis=1), st("c", "identity", 19, ["b"])], "outs": ["c"]})
     # the same function application built twice, in models with different maxima
     P.append({"nodes": [{"id": "f", "op": "func", "name": "ftwice", "params": ["p"], "args": ["x"],
                          "body": {"nodes": [st("q", "rmean", 17, ["p"], axis=0), st("r", "rmax", 18, ["q"], axis=1)], "out": "r"}},
